@@ -384,7 +384,7 @@ class ConditionLike:
                 try:
                     pre_proc_str = spec_key_split[1]
                     pre_proc_str = PRE_PROC_LOOKUP.get(pre_proc_str, pre_proc_str)
-                    if pre_proc_str == "dtype":
+                    if pre_proc_str == "dtype" and spec_val is not None:
                         try:
                             # convert strings to types
                             if isinstance(spec_val, list):
